@@ -4,7 +4,8 @@
    lengths are an error, never a silent truncation); positions without annotation are skipped but counted;
    element i is named `name` for i = 0 and `name[i]` otherwise; all elements join the one queue of the context,
    so bindings are shared with every other tensor (C01 / C02 speak about that queue). *)
-From DL Require Import Base Lexer Parser Eval Shape Dtypes Check Context Hints Call Structural.
+From Coq Require Import Sorted.
+From DL Require Import Base Lexer Parser Eval Shape Dtypes Check Context Hints Call Structural TupleLen.
 
 Theorem C11_tuple_marks_value_as_tuple : forall hs r, from_hint (HTuple hs) false = Ok r -> fst r = true.
 Proof. exact tuple_hint_flattens. Qed.
@@ -20,4 +21,26 @@ Theorem C11_element_names : forall i n x a,
   tensor_arg_name {| c_idx := i; c_name := n; c_tensor := x; c_annot := a |} = if 0 <? i then indexed_name n i else n.
 Proof. reflexivity. Qed.
 Example third_element_is_named_x2 : indexed_name "x" 2 = "x[2]". Proof. reflexivity. Qed.
+(* a tuple of the wrong length is an error for every pair of lists - never accepted, never silently truncated *)
+Theorem C11_wrong_length_never_accepted : forall name anns idx vals q,
+  length anns <> length vals -> forall q', add_loop name idx anns vals q <> DOk q'.
+Proof. exact add_loop_length_mismatch. Qed.
+(* acceptance by DLTypeContext.add is decided by exactly: equal lengths and admissible positions *)
+Theorem C11_add_succeeds_iff : forall name anns idx vals q,
+  (exists q', add_loop name idx anns vals q = DOk q') <-> (length anns = length vals /\ all_admissible anns vals = true).
+Proof. exact add_loop_ok_iff. Qed.
+(* what is queued: exactly the positions with an annotation and an array, each with the annotation and the value found at
+   that same position, numbered by the position ... *)
+Theorem C11_same_position : forall name anns idx vals c,
+  In c (expected_queue name idx anns vals) <->
+  exists i, nth_error anns i = Some (Some (c_annot c)) /\ nth_error vals i = Some (VArr (c_tensor c)) /\
+            c_idx c = idx + i /\ c_name c = name.
+Proof. exact expected_queue_positions. Qed.
+(* ... and in position order *)
+Theorem C11_in_order : forall name anns idx vals,
+  StronglySorted (fun a b => c_idx a < c_idx b) (expected_queue name idx anns vals).
+Proof. exact expected_queue_sorted. Qed.
 Redirect "C11.assumptions.1" Print Assumptions C11_elementwise.
+Redirect "C11.assumptions.2" Print Assumptions C11_add_succeeds_iff.
+Redirect "C11.assumptions.3" Print Assumptions C11_same_position.
+Redirect "C11.assumptions.4" Print Assumptions C11_in_order.
